@@ -839,7 +839,46 @@ def r10_11(ctx):
     ctx.floor(n, 2, "update() methods analysed")
 
 
-RULES = [r10_1, r10_2, r10_3, r10_4, r10_5, r10_6, r10_7, r10_8, r10_9, r10_10, r10_11]
+def r10_12(ctx):
+    ctx.rule("R10.12", "the buffer context is always left: Console.__enter__ opens a buffer level and Console.__exit__ closes it (self._exit_buffer()) on EVERY path, whatever the exception arguments - print, log and every refresh run inside `with console:`; if a renderable raises and the level is not closed, _buffer_index never returns to 0 and nothing the console prints afterwards (including the cursor restore of stop()) reaches the terminal")
+    cons = ctx.repo.cls("console:Console")
+    en, ex = cons.method("__enter__"), cons.method("__exit__")
+    if en is None or ex is None:
+        raise AnchorVanished("Console.__enter__/__exit__ not found")
+    opens = any(isinstance(c, ast.Call) and norm(c.func) == "self._enter_buffer" for c in walk_local(en.node))
+    ctx.check(opens, en.fq, "self._enter_buffer()", en.where, "__enter__ opens a buffer level", "Console.__enter__ no longer opens a buffer level")
+    g = cfgmod.build(ex.node)
+    closes = {nd.id for nd in g.stmt_nodes() if nd.kind == "stmt" and nd.stmt is not None and not isinstance(nd.stmt, (ast.With, ast.Try, ast.If, ast.For, ast.While)) and any(isinstance(c, ast.Call) and norm(c.func) == "self._exit_buffer" for c in ast.walk(nd.stmt))}
+    if not closes:
+        ctx.violation(ex.fq, "self._exit_buffer()", ex.where, "Console.__exit__ never closes the buffer level")
+        return
+    w = g.must_pass(g.entry, closes, {g.exit})
+    ctx.check(w is None, ex.fq, "self._exit_buffer()", ex.where, "__exit__ closes the buffer level on every path",
+              "Console.__exit__ can return without self._exit_buffer() (it depends on the exception arguments): after a renderable raised inside `with console:` the buffer level stays open, everything printed later stays buffered - the terminal keeps the hidden cursor and shows no further output", g.describe_path(w) if w else None)
+
+
+def r10_13(ctx):
+    ctx.rule("R10.13", "an update to an empty value is an update: Status.update replaces status / spinner / spinner_style / speed whenever the argument was passed (`is not None`), not only when it is truthy - update(status='') must clear the text the next frame shows")
+    f = ctx.repo.cls("status:Status").method("update")
+    if f is None:
+        raise AnchorVanished("Status.update not found")
+    m = f.module
+    opt = [p_ for p_ in f.params[1:] if p_ in ("status", "spinner", "spinner_style", "speed")]
+    n = 0
+    for x in walk_local(f.node):
+        if isinstance(x, ast.If):
+            t = x.test
+            names = {nd.id for nd in ast.walk(t) if isinstance(nd, ast.Name)} & set(opt)
+            if not names:
+                continue
+            n += 1
+            bare = isinstance(t, ast.Name) or (isinstance(t, ast.UnaryOp) and isinstance(t.op, ast.Not) and isinstance(t.operand, ast.Name))
+            ctx.check(not bare, f.fq, f"if {short(t)}", f"{m.relpath}:{x.lineno}", f"`{sorted(names)[0]}` applied whenever it was passed",
+                      f"`if {short(t)}:` tests the truth of the new value: update({sorted(names)[0]}='') (or Text('')) is ignored, the display is still refreshed and every later frame shows the old value")
+    ctx.floor(n, 2, "optional arguments handled by Status.update")
+
+
+RULES = [r10_1, r10_2, r10_3, r10_4, r10_5, r10_6, r10_7, r10_8, r10_9, r10_10, r10_11, r10_12, r10_13]
 
 
 def _xcheck(ctx):
